@@ -212,6 +212,12 @@ def pack_standard(evs):
                         logP_ok=bool(e.get("logP_ok", True)), logL_ok=bool(e.get("logL_ok", True)),
                         in_contour=bool(e.get("in_contour", True)),
                         contour_checked=bool(e.get("contour_checked", False)))
+        elif ev == "pbatch":
+            base.update(mode=e["mode"], n=int(e["n"]), n_acc=int(e["n_acc"]), mask_ok=bool(e["mask_ok"]),
+                        norm_ok=bool(e["norm_ok"]), n_target=int(e["n_target"]), n_before=int(e.get("n_before", -1)))
+        elif ev == "ppool":
+            base.update(n=int(e["n"]), n_target=int(e["n_target"]), accumulate=bool(e["accumulate"]),
+                        prefix_ok=bool(e["prefix_ok"]), n_proposed=int(e["n_proposed"]))
         elif ev == "ll_outside":
             base["n"] = int(e["n"])
         elif ev == "kill":
